@@ -11,21 +11,56 @@ SPEC = dict(
          'rings), swap_node and swap_ of sections that are disjoint and non-adjacent (same or different ring), foreach/forsafe macros; (b) two slist.h '
          'lists: add (incl. after the last node), add_head, add_tail, del, del_head, mov, rot, foreach; (c) two queues (element sizes 0,1,4,8,24): '
          'push/pull at both ends, insert/remove at {0, mid, last, num, num+1, SIZE_MAX}, push_sort, push+sort_fore/sort_back, element swap, '
-         'whole-queue a_que_swap in every emptiness combination followed by further traffic and destruction, drop, setz, foreach. After EVERY call the '
+         'whole-queue a_que_swap in every emptiness combination followed by further traffic and destruction, drop, setz, foreach; the comparator handed '
+         'to push_sort/sort_fore/sort_back returns, chosen per case, -1/0/+1, the key difference, INT_MIN/0/INT_MAX or magnitudes varying with the '
+         'operands (only the sign is contractual). After EVERY call the '
          'rings are walked forward and backward (step-bounded) and compared with an id-sequence model; next->prev/prev->next consistency of every '
          'member incl. sentinels; slist tail == last node; queue count, fore/back/at(+-i) for every i, payload bytes, fixed element addresses, '
          'and "a pushed node is not the address of an enqueued element". distinct_nontrivial = distinct (family, operation, emptiness class of the '
-         'operands, position class) combinations judged.',
+         'operands, position class) combinations judged (large cases: family, operation, position/length class, floor(log2 size)). '
+         'LARGE cases (one case in 41 quick / 1201 thorough, families in rotation): (L-a) a list.h ring grown node by node to N nodes (each its own malloc '
+         'block), complete forward+backward walk against an id-sequence model at every n with |n-2^k|<=2 and at N, then 30-59 structural operations at '
+         'that size (del_ of a section of length 1/2/n/n-1/n/2/n/3/2^k+-1 followed by add_ of the detached chain into either ring, set_ with a chain '
+         'cut from the other ring, mov_next/mov_prev of a whole ring at head/0/2^k+-1/n-1, rot_next/rot_prev x {1,2,n-1,n,n+1,2^k+-1}, swap_ of '
+         'long disjoint non-adjacent sections in one ring or across rings, swap_node, single add_next/add_prev/add_node/del_node/del_next/del_prev/'
+         'set_node at positions 0/1/2^k+-1/n-2/n-1, foreach macros), both rings walked completely after each; (L-b) the same for slist.h '
+         '(add_tail/add_head/add incl. after the last node, del/del_head at those positions, mov of a whole long list after head/inner/last node, '
+         'rot xR, bulk del_head+add_tail transfers), walk and tail==last node after each; (L-c) a queue of element size 1/3/4/8/24/64 filled to N '
+         'elements (push_back/push_fore/insert at 0,num,num+1,SIZE_MAX and rare inner indices), every ring node, link pair, payload byte (derived '
+         'from the element id), element address, num, fore/back, at(0), at(-1) and in rotation at(n-1)/at(-n)/at(i)/at(-i-1)/at(n)/at(-n-1), and the '
+         'recycling pool (cursor<=capacity, no pooled node enqueued anywhere, no node pooled twice) compared at every n with |n-2^k|<=2 while filling '
+         'and draining, after a deterministic sweep insert(i)+remove(i) for i in {2^j-1,2^j,2^j+1 (three largest 2^j<=n), n-1, n}, after every single '
+         'insert/remove/push/pull/element swap at that size (indices 0, 2^k+-1, n-1, n, n+1, SIZE_MAX), across 1-3 '
+         'fill/drain cycles through the pool (light checks at every pool growth step and pool fill 2^k+-2), whole-queue swap with a queue of '
+         '0/1/2/5/33/N/2 elements + traffic on both, drop + refill out of the pool, setz to another element size after heavy use + refill past the '
+         'pool with every byte of the new size written, and a sorted queue of N elements with push_sort/sort_fore/sort_back of keys below all, above all, '
+         'equal to the first/last/an inner run, between two runs (position must lie in the admissible range, rest of the sequence unchanged). '
+         'N: 257, 1023, 4097, 16385, 32767, 65535, 65536, 65537, 2^k+-1 (k 8..15) and random sizes to 70000; thorough additionally 131072, 131073 and '
+         'random to 200000. Quick bound: list and slist reach 65537 nodes in every round; the queue reaches 65535/65536/65537 elements in one case '
+         'each per run (other queue cases of those slots use N/8), thorough in every round.',
     exhaustive={},
     require=['list-rings-walked', 'slist-walked', 'slist-tail-designates-last-node', 'que-state-compared-with-model', 'que-indexed-access',
              'que-recycled-node-not-enqueued', 'que-pull-returns-the-element', 'que-sorted-insert-keeps-order-and-elements', 'que-element-swap',
              'que-whole-swap', 'que-drop', 'que-setz', 'que-foreach-macros', 'list-foreach-macros', 'slist-foreach-macros', 'que-destroyed', 'que-ctor-dtor-on-caller-storage',
-             'que-pull-from-empty-returns-null'],
+             'que-pull-from-empty-returns-null',
+             'large-cases', 'large-list-rings-walked', 'large-list-growth-checkpoints', 'large-list-structural-ops-judged', 'large-list-section-ops',
+             'large-list-detached-chain-walked', 'large-list-rotations', 'large-list-cases-reaching-65537',
+             'large-slist-walked', 'large-slist-tail-designates-last-node', 'large-slist-growth-checkpoints', 'large-slist-ops-judged',
+             'large-slist-whole-list-moves', 'large-slist-rotations', 'large-slist-cases-reaching-65537',
+             'large-que-state-compared-with-model', 'large-que-elements-compared', 'large-que-indexed-access', 'large-que-pooled-nodes-checked',
+             'large-que-recycled-node-not-enqueued', 'large-que-pull-returns-the-element', 'large-que-fill-checkpoints', 'large-que-drain-checkpoints',
+             'large-que-pool-growth-steps-checked', 'large-que-fill-drain-cycles', 'large-que-single-ops-at-size-judged', 'large-que-boundary-sweep-ops', 'large-que-whole-swap',
+             'large-que-drop', 'large-que-setz', 'large-que-sorted-insert-position', 'large-que-sorted-inserts-judged', 'large-que-element-swap',
+             'large-que-destroyed', 'large-que-cases-reaching-65537',
+             'comparator-returns-minus-one-zero-plus-one', 'comparator-returns-key-difference', 'comparator-returns-int-min-int-max',
+             'comparator-returns-varying-magnitudes'],
     cov_files=['que.c'], cov_cases=600,
     assumptions=_COMMON + [
         'swap of adjacent nodes/sections is excluded (the property says so; the repository test expects it to be unsupported)',
         'del_next/del_prev are never asked to unlink a head sentinel; set_node is applied to enlisted nodes only; mov_* only with a non-empty source ring',
-        'destructor call counts of a_que_drop/a_que_dtor are not judged (the pool semantics of destructors is not part of the property)'],
+        'destructor call counts of a_que_drop/a_que_dtor are not judged (the pool semantics of destructors is not part of the property)',
+        'large cases: between checkpoints (n farther than 2 from every power of two) bulk fill/drain operations are judged only by their return '
+        'value, the returned element (address + payload) and the hand-out clause; the complete comparison happens at the next checkpoint'],
     level_text='Lock-step sequence models with complete ring walks after every call over seeded histories on two containers at a time (so cross-container '
                'operations and the whole-queue swap are exercised), every node and sentinel in its own malloc block under ASan. Histories are unbounded, so '
                'seeded sampling with operand/position class coverage is the reachable level.',
